@@ -28,7 +28,9 @@ RULE = ("seeded history of 4-16 steps over one site (example.com and sub-domains
         "as inner labels or as a non-label suffix, unrelated hosts, an IPv4 host; ports 80/443/8080; paths around /foo and "
         "/app incl. sibling prefixes): requests, responses (0-3 Set-Cookie each: host-only / Domain with+without dot / parent, "
         "sibling and foreign Domain; Path; Expires and Max-Age relative to the sim clock; deletions), clock advances "
-        "(1 s .. 25 h), stickycookie filter changes; responses may be delayed behind later requests; non-trivial = at least "
+        "(1 s .. 25 h), stickycookie filter changes; responses may be delayed behind later requests; requests may be held "
+        "up (0.5 s .. 2 cookie lifetimes) between the arrival of their head (request.timestamp_start) and the request hook "
+        "(slow upload), incl. episodes where a short-lived cookie expires inside that gap; non-trivial = at least "
         "one cookie legitimately attached AND at least one request for which a live cookie had to be withheld; distinct = "
         "distinct digests of the per-step outcome log")
 COMPONENTS_REAL = ["Master", "AddonManager", "OptManager", "Core", "StickyCookie", "flowfilter", "mitmproxy.net.http.cookies",
@@ -46,9 +48,11 @@ ASSUMPTIONS = ["a cookie without (valid) Path attribute is given cookie-path '/'
                "attribute is not the empty string (undefined in RFC 6265 5.2.3)",
                "cookies set while the option is off or by flows the filter does not match may or may not be learned",
                "'an expired cookie is removed from the jar' is read as: a cookie is not attached at a time later than its "
-               "expiry time (reported with key when=later), and a Set-Cookie that is already expired deletes (when=at_set)"]
+               "expiry time, judged by the clock at the moment the request hook runs (reported with key when=later, or "
+               "when=while_request_held if the cookie was still live when the held-up request's head arrived), and a Set-Cookie that is already expired deletes (when=at_set)"]
 EXPECTED_PROBES = ["attached_ok", "withheld_domain", "withheld_port", "withheld_path", "withheld_expired",
-                   "rejected_foreign_domain", "deletion_applied", "clock_expiry_crossed", "filter_blocked", "delayed_response"]
+                   "rejected_foreign_domain", "deletion_applied", "clock_expiry_crossed", "filter_blocked", "delayed_response",
+                   "held_request", "expired_while_held"]
 
 SITE_HOSTS = ["example.com", "www.example.com", "a.b.example.com", "login.example.com", "WWW.Example.COM"]
 LOOKALIKE_HOSTS = ["a.example.com.evil.org", "www.example.com.evil.org", "example.com.evil.org", "badexample.com",
@@ -173,7 +177,40 @@ def generate(rng, tier):
             ops.append({"op": "req", "id": nflow, "host": _host(r), "port": port0 if r.random() < 0.8 else r.choice(PORTS),
                         "path": r.choice(REQ_PATHS), "method": "GET", "cookies": []})
             nflow += 1
-    return {"family": "stickycookie", "filter": r.choice(FILTERS), "ops": ops}
+    flt0 = r.choice(FILTERS)
+    _hold_requests(rng.at("c54-held"), ops, nflow)
+    return {"family": "stickycookie", "filter": flt0, "ops": ops}
+
+
+HOLD_TIMES = [0.5, 5, 25, 50, 650, 3700]
+
+
+def _hold_requests(h, ops, nflow):
+    """Requests that are held up between the arrival of their head (``request.timestamp_start``) and the ``request`` hook
+    (slow body upload, slow earlier hook): ``held`` seconds of sim time pass in between.  Drawn from a site of its own."""
+    if h.random() < 0.45:
+        return
+    for op in ops:
+        if op["op"] == "req" and h.random() < 0.3:
+            op["held"] = h.choice(HOLD_TIMES)
+    if h.random() < 0.5:
+        # a slow-upload episode: a host hands out a short-lived cookie, a later request to it (or a relative) is held up
+        # for about as long as the cookie lives
+        host = h.choice(SITE_HOSTS)
+        port = h.choice(PORTS)
+        life = h.choice([20, 45, 600, 3000])
+        c = {"name": h.choice(NAMES), "value": f"h{nflow}", "domain": h.choice([None, None, ".example.com", "example.com"]),
+             "path": h.choice([None, "/", "/foo"]), "expires": None, "max_age": None, "style": h.randrange(4)}
+        c["max_age" if h.random() < 0.5 else "expires"] = life
+        ops.append({"op": "req", "id": nflow, "host": host, "port": port, "path": h.choice(REQ_PATHS), "method": "GET",
+                    "cookies": []})
+        ops.append({"op": "resp", "id": nflow, "cookies": [c]})
+        if h.random() < 0.5:
+            ops.append({"op": "sleep", "t": h.choice([1, 5, life // 2])})
+        for k in range(h.choice([1, 2])):
+            ops.append({"op": "req", "id": nflow + 1 + k, "host": host if h.random() < 0.7 else h.choice(SITE_HOSTS), "port": port,
+                        "path": h.choice(["/foo", "/foo/bar", "/", "/foo?x=1"]), "method": h.choice(["POST", "POST", "GET"]),
+                        "cookies": [], "held": h.choice([life // 2, life - 2, life + 3, life + 3, 2 * life])})
 
 
 # ---------------------------------------------------------------------------
@@ -368,11 +405,19 @@ def execute(sc):
                     continue
                 f = tflow.tflow(req=make_request(op))
                 flows[op["id"]] = (f, op, False)
+                t_head = now
+                held = float(op.get("held") or 0)
+                if held > 0:
+                    # the head has arrived (request.timestamp_start = now); the request hook only runs `held` seconds later
+                    await host.advance(held)
+                    now = host.loop.time()
+                    f.request.timestamp_end = HOST.EPOCH + now
+                    probe("held_request")
                 await host.hook(lhttp.HttpRequestHook(f))
                 pairs = parse_cookie_header(f.request.headers.get_all("cookie"))
                 client = [tuple(x) for x in op.get("cookies", [])]
                 attached = [p for p in pairs if p not in client]
-                log.append(("req", op["host"], op["port"], op["path"], tuple(attached)))
+                log.append(("req", op["host"], op["port"], op["path"], tuple(attached)) + ((held,) if held > 0 else ()))
                 fm = filter_matches(flt, op)
                 attached_values = set()
                 for name, value in attached:
@@ -397,8 +442,13 @@ def execute(sc):
                             where + f" although the response of step {rec['dead_step']} (from {rec['dead_by']}) deleted it with "
                                     "an expired Set-Cookie of the same name, Domain, port and Path")
                     elif expired_at(rec, now):
-                        bad("expired_cookie_attached", {"when": "later"},
-                            where + " although its expiry time has passed on the simulated clock")
+                        if held > 0 and not expired_at(rec, t_head):
+                            bad("expired_cookie_attached", {"when": "while_request_held"},
+                                where + f" although its expiry time has passed on the simulated clock (the request's head "
+                                        f"arrived at t={t_head:.2f}, before the expiry; the request hook ran {held:g} s later)")
+                        else:
+                            bad("expired_cookie_attached", {"when": "later"},
+                                where + " although its expiry time has passed on the simulated clock")
                     elif rec["port"] != op["port"]:
                         bad("port_mismatch", {}, where + " although the port differs")
                     elif not domain_match(op["host"], rec["domain"]):
@@ -422,6 +472,12 @@ def execute(sc):
                     if expired_at(rec, now):
                         probe("withheld_expired")
                         st["withheld"] += 1
+                        if (held > 0 and rec["t"] + min(x for x in (_valid_max_age(rec["c"]), _valid_expires(rec["c"]))
+                                                        if x is not None) > t_head + 1
+                                and rec["port"] == op["port"] and domain_match(op["host"], rec["domain"])
+                                and path_match(op["path"], rec["cpath"]) and fm):
+                            # live when the head arrived, expired when the hook ran, and otherwise due to this request
+                            probe("expired_while_held")
                     elif rec["port"] != op["port"]:
                         if domain_match(op["host"], rec["domain"]):
                             probe("withheld_port")
@@ -488,7 +544,8 @@ def execute(sc):
     # perturbations that landed in in-flight state: the clock passed the expiry time of a stored cookie, a response
     # arrived after later requests had been made, the filter changed in mid-history
     faults = {k: probes[p] for k, p in (("clock_passed_cookie_expiry", "clock_expiry_crossed"),
-                                        ("response_delayed_behind_requests", "delayed_response")) if probes.get(p)}
+                                        ("response_delayed_behind_requests", "delayed_response"),
+                                        ("cookie_expired_while_request_held", "expired_while_held")) if probes.get(p)}
     nopt = sum(1 for e in log if e[0] == "opt")
     if nopt:
         faults["filter_changed_midway"] = nopt
